@@ -76,3 +76,15 @@ def run_case(case):
                 evals=ex['executions'], transitions=ex['executions'] * max(1, ex['max_points']),
                 caps=['execution cap hit for %s' % case] if ex['capped'] else [],
                 extra={'threaded_schedules': ex['executions'], 'threaded_max_points': ex['max_points']})
+
+
+def replay_one(case, violation):
+    from mc.checks import c04
+    prog = prog_of(case)
+    S.explore(lambda p: T.record_under(prog, p, fine=case['fine']), 0, max_execs=1)
+    s1, r1 = T.record_under(prog, violation['schedule'], fine=case['fine'])
+    print('what the workers observed:', P.obs_canon(r1['r'].obs) if r1['r'] is not None else None, 'cassette:', r1['r'].log if r1['r'] is not None else None)
+    if r1['r'] is None:
+        return [viol('liveness:%s' % ('deadlock' if r1['deadlock'] else 'step-horizon'), 'threaded operation did not terminate', 'terminates', r1['thread_errors'])]
+    P.RT.spawn = lambda fns: [f() for f in fns]
+    return c04.judge({'mods': [1], 'glob': 'threads'}, prog, r1['r'], r1['end'], {})['viol']
